@@ -21,6 +21,7 @@
 #include <stdlib.h>
 #include <string.h>
 #include <stdint.h>
+#include <unistd.h>
 #include "sync_sched.h"
 
 extern "C" {
@@ -211,7 +212,13 @@ static void spawn_real(int t, void* (*fn)(void*), void* arg)
   boots[t].tid = t; boots[t].fn = fn; boots[t].arg = arg;
   pend[t].kind = C_IDLE;
   real_started[t] = 1; real_joined[t] = 0; real_finished[t] = 0;
-  if(__real_pthread_create(&real_thr[t], 0, tramp, &boots[t]) != 0) { fprintf(stderr, "detsched: pthread_create failed\n"); abort(); }
+  int rc = 0;
+  for(int attempt = 0; attempt < 200; ++attempt) {          // EAGAIN under load: the host is shared
+    rc = __real_pthread_create(&real_thr[t], 0, tramp, &boots[t]);
+    if(rc == 0) break;
+    struct timespec d = { 0, 20000000 }; nanosleep(&d, 0);
+  }
+  if(rc != 0) { fprintf(stderr, "detsched: pthread_create failed (%d)\n", rc); _exit(97); }
 }
 
 // ---- registry of the library objects' primitives -----------------------------------------------------
